@@ -78,6 +78,30 @@ impl Property for C17 {
             let mg = MessageGenerator::new(SingleMeasurement::new(&m), t, epoch.as_bytes());
             let core = ctx.os.with_node(node as u64, || mg.share_with_local_randomness()).map_err(|e| Violation::new("c17.setup", "core", e.to_string()))?;
             node += 1;
+            // boundary thresholds the groups never use (0, and two large ones): the string API and the core
+            // library must derive the same key and tag there as well, and carry the threshold asked for
+            if gi == 0 {
+                for bt in [0u32, 65_536, u32::MAX] {
+                    let mgb = MessageGenerator::new(SingleMeasurement::new(&m), bt, epoch.as_bytes());
+                    let mut rb = [0u8; 32];
+                    mgb.sample_local_randomness(&mut rb);
+                    if bt != 0 {
+                        continue; // (a share for a huge threshold takes minutes; only the randomness is cheap)
+                    }
+                    let coreb = ctx.os.with_node(node as u64, || mgb.share_with_local_randomness()).map_err(|e| Violation::new("c17.setup", "core", e.to_string()))?;
+                    let js = ctx.os.with_node(node as u64, || star_wasm::create_share(&m, bt, &epoch));
+                    let v: serde_json::Value = serde_json::from_str(&js).map_err(|e| Violation::new("c17.json", "malformed", format!("create_share returned malformed JSON ({})", e)))?;
+                    let dec = |name: &str| v[name].as_str().and_then(|s| BASE64_STANDARD.decode(s).ok()).unwrap_or_default();
+                    let (key, share, tag) = (dec("key"), dec("share"), dec("tag"));
+                    if key != coreb.key || tag != coreb.tag {
+                        return Err(Violation::new("c17.core_mismatch", if key != coreb.key { "key" } else { "tag" }, format!("create_share's {} for threshold {} differs from what the core library derives for the same measurement, threshold and epoch", if key != coreb.key { "key" } else { "tag" }, bt)));
+                    }
+                    if layout::parse_share(&share).map(|p| p.threshold) != Some(bt) {
+                        return Err(Violation::new("c17.core_mismatch", "threshold", format!("create_share's share for threshold {} carries another threshold", bt)));
+                    }
+                    ctx.stats.probe("boundary_threshold_compared_with_core");
+                }
+            }
             let g = Group { m: m.clone(), t, epoch: epoch.clone(), key: core.key, tag: core.tag };
             ev!(ctx, "group {} m={} t={} epoch={:?}", gi, hex_short(&m), t, epoch);
             let n = (t as i64 + *ctx.ch.pick(&[-1i64, 0, 0, 1, 2])).max(1) as usize;
